@@ -31,8 +31,11 @@ type vC23Fmt struct {
 	bytejoin bool
 	// payload of about the requested size class; ok=false: outside the round-trip precondition
 	gen func(g *vC23Gen, max int, last bool) (p unit.Payload, class string)
-	// expected per-packet timestamp increments (nil = none)
-	deltas func(p unit.Payload) []int64
+	// expected per-packet timestamp increments: "" none; "opus" durations of the preceding Opus packets;
+	// "frames" spf x frames completed by the preceding packets; "bytes" payload bytes of the preceding packets / spf
+	deltas string
+	spf    int
+	minMax int // smallest maximum the format's encoder supports (its fixed headers must fit)
 }
 
 type vC23Gen struct{ r *vRand }
@@ -102,17 +105,17 @@ func vC23Sizes(bb [][]byte) []int {
 
 // maxima 16..1460, weighted towards small ones (every boundary class is reached with short payloads)
 func (g *vC23Gen) max() int {
-	switch g.r.Intn(10) {
-	case 0, 1, 2, 3:
-		return 16 + g.r.Intn(32)
-	case 4, 5:
-		return 48 + g.r.Intn(100)
-	case 6:
-		return vPick(g.r, []int{16, 17, 18, 255, 256, 257, 258, 259, 260, 261, 262, 1450, 1460})
-	case 7:
-		return 148 + g.r.Intn(400)
+	switch g.r.Intn(20) {
+	case 0, 1, 2, 3, 4, 5, 6, 7, 8, 9, 10, 11, 12:
+		return 16 + g.r.Intn(49)
+	case 13, 14, 15:
+		return 65 + g.r.Intn(236)
+	case 16, 17:
+		return vPick(g.r, []int{16, 17, 18, 19, 20, 255, 256, 257, 258, 259, 260, 261, 262})
+	case 18:
+		return 301 + g.r.Intn(900)
 	default:
-		return 548 + g.r.Intn(913)
+		return vPick(g.r, []int{1200, 1440, 1450, 1460, 1201 + g.r.Intn(260)})
 	}
 }
 
@@ -194,24 +197,55 @@ func vC23EncInit(enc rtpEncoder) (ssrc uint32, seq uint16) {
 	return
 }
 
-func vC23Decode(d rtpDecoder, pkt *rtp.Packet) (coq string, desc string) {
+func vC23Decode(d rtpDecoder, pkt *rtp.Packet) (coq string, desc string, l [][]byte) {
 	defer func() {
 		if r := recover(); r != nil {
-			coq, desc = "PErr", "panic: "+fmt.Sprint(r)
+			coq, desc, l = "PErr", "panic: "+fmt.Sprint(r), nil
 		}
 	}()
 	if d == nil {
-		return "PErr", "no decoder"
+		return "PErr", "no decoder", nil
 	}
 	p, err := d.decode(vC23ClonePkt(pkt))
 	if err != nil {
-		return "PErr", "err: " + err.Error()
+		return "PErr", "err: " + err.Error(), nil
 	}
-	if p == nil {
-		return "PMore", "more"
+	if p == nil || (&unit.Unit{Payload: p}).NilPayload() {
+		return "PMore", "more", nil
 	}
-	l := vC22PayloadList(p)
-	return cqApp("POk", cqHexList(l)), fmt.Sprint(vC23Sizes(l))
+	l = vCopy2(vC22PayloadList(p))
+	return cqApp("POk", cqHexList(l)), fmt.Sprint(vC23Sizes(l)), l
+}
+
+// the known gortsplib defect (KNOWN_FINDINGS class av1/obus-merged-at-packet-boundary): the decoder returns the
+// same bytes as delivered but with adjacent OBUs joined into one
+func vC23Merged(deliv, dec [][]byte) bool {
+	if len(dec) >= len(deliv) || len(dec) == 0 {
+		return false
+	}
+	var a, b []byte
+	for _, x := range deliv {
+		a = append(a, x...)
+	}
+	for _, x := range dec {
+		b = append(b, x...)
+	}
+	if string(a) != string(b) {
+		return false
+	}
+	// every decoded OBU is the concatenation of a run of delivered OBUs
+	i := 0
+	for _, x := range dec {
+		n := 0
+		for n < len(x) && i < len(deliv) {
+			n += len(deliv[i])
+			i++
+		}
+		if n != len(x) {
+			return false
+		}
+	}
+	return i == len(deliv)
 }
 
 type vC23Scenario struct {
@@ -220,6 +254,7 @@ type vC23Scenario struct {
 	rtp    bool // RTP publisher (encoder created on the first oversized packet)
 	srcMax int
 	nUnits int
+	fixed  []unit.Payload // directed scenario: these payloads, in this order (non-RTP publisher)
 }
 
 // runs one scenario; returns the case
@@ -246,7 +281,11 @@ func vC23Run(g *vC23Gen, sc vC23Scenario) (coq string, desc map[string]any, clas
 	}
 	var ins []inUnit
 	classes := map[string]bool{}
-	if !sc.rtp {
+	if sc.fixed != nil {
+		for _, p := range sc.fixed {
+			ins = append(ins, inUnit{pts: g.pts(), payload: p, class: "directed"})
+		}
+	} else if !sc.rtp {
 		for i := 0; i < sc.nUnits; i++ {
 			p, cl := sc.f.gen(g, sc.max, i == sc.nUnits-1)
 			ins = append(ins, inUnit{pts: g.pts(), payload: p, class: cl})
@@ -259,8 +298,8 @@ func vC23Run(g *vC23Gen, sc vC23Scenario) (coq string, desc map[string]any, clas
 		}
 		srcOff := uint32(g.r.U64())
 		src, err2 := newRTPEncoder(sc.f.mk(), sc.srcMax, &ssrc, &seq)
-		if err2 != nil {
-			// no encoder for this format: hand-made packets
+		if err2 != nil || sc.f.id == 16 {
+			// no (real) encoder for this format: hand-made packets
 			src = nil
 		}
 		for i := 0; i < sc.nUnits; i++ {
@@ -286,16 +325,10 @@ func vC23Run(g *vC23Gen, sc vC23Scenario) (coq string, desc map[string]any, clas
 					seq++
 				}
 			}
-			var dl []int64
-			if sc.f.deltas != nil {
-				dl = sc.f.deltas(p)
-			}
-			for k, pkt := range pkts {
+			for _, pkt := range pkts {
 				pkt.Timestamp += srcOff + uint32(pts)
-				_ = k
 				ins = append(ins, inUnit{pts: pts, pkts: []*rtp.Packet{pkt}, class: cl})
 			}
-			_ = dl
 		}
 	}
 
@@ -307,6 +340,7 @@ func vC23Run(g *vC23Gen, sc vC23Scenario) (coq string, desc map[string]any, clas
 	var dsteps []map[string]any
 	reenc := 0
 	trig := false
+	merged := false
 	for _, in := range ins {
 		var inPkts []*rtp.Packet
 		for _, p := range in.pkts {
@@ -338,6 +372,7 @@ func vC23Run(g *vC23Gen, sc vC23Scenario) (coq string, desc map[string]any, clas
 		var res string
 		var deliv [][]byte
 		delivCoq := "None"
+		var dl []int64
 		switch {
 		case pan != "":
 			res = "SPanic"
@@ -353,11 +388,29 @@ func vC23Run(g *vC23Gen, sc vC23Scenario) (coq string, desc map[string]any, clas
 			}
 			var obs []string
 			var dobs []string
+			var decAll [][]byte
 			if fx.sf.rtpEncoder != nil {
+				frames, nbytes := 0, 0
 				for _, p := range u.RTPPackets {
-					c, d := vC23Decode(check, p)
+					switch sc.f.deltas {
+					case "frames":
+						dl = append(dl, int64(frames*sc.f.spf))
+					case "bytes":
+						dl = append(dl, int64(nbytes/sc.f.spf))
+					}
+					c, d, l := vC23Decode(check, p)
 					obs = append(obs, c)
 					dobs = append(dobs, d)
+					decAll = append(decAll, l...)
+					frames += len(l)
+					nbytes += len(p.Payload)
+				}
+				if sc.f.name == "av1" && vC23Merged(deliv, decAll) {
+					merged = true
+					ds["knownDefect"] = "adjacent OBUs joined by the RTP/AV1 packetisation (gortsplib rtpav1.Encoder sets Y/Z although nothing of the next OBU is in the packet)"
+				}
+				if sc.f.deltas == "opus" && !u.NilPayload() {
+					dl = vC23OpusDeltas(u.Payload)
 				}
 				if len(u.RTPPackets) != 0 {
 					reenc++
@@ -372,13 +425,23 @@ func vC23Run(g *vC23Gen, sc vC23Scenario) (coq string, desc map[string]any, clas
 				ds["decoded"] = dobs
 			}
 		}
-		var dl []int64
-		if sc.f.deltas != nil && deliv != nil && !u.NilPayload() {
-			dl = sc.f.deltas(u.Payload)
+		if dl != nil {
+			ds["tsDeltas"] = dl
 		}
 		steps = append(steps, cqApp("Step", cqZ(in.pts), cqListOf(sentPkts, cqPkt), cqBool(decerr), delivCoq,
 			cqListOf(dl, func(v int64) string { return cqZ(v) }), res))
 		dsteps = append(dsteps, ds)
+		if merged {
+			// the steps before the defective one are judged on their own (prefix case); the scenario ends here
+			if len(steps) > 1 {
+				vC23Prefix = &vC23Case{
+					coq:   cqApp("CScen", strconv.Itoa(sc.f.id), strconv.Itoa(sc.max), cqBool(sc.f.avail), cqBool(sc.f.bytejoin), initCoq, cqList(steps[:len(steps)-1])),
+					desc:  map[string]any{"format": sc.f.name, "max": sc.max, "rtpPublisher": sc.rtp, "prefixOfKnownDefectCase": true, "steps": dsteps[:len(dsteps)-1]},
+					class: sc.f.name + "/prefix-of-known-defect-case", nt: true,
+				}
+			}
+			break
+		}
 		classes[in.class] = true
 		if res == "SPanic" || res == "SErr" {
 			classes["error"] = true
@@ -386,6 +449,9 @@ func vC23Run(g *vC23Gen, sc vC23Scenario) (coq string, desc map[string]any, clas
 	}
 	desc["steps"] = dsteps
 	coq = cqApp("CScen", strconv.Itoa(sc.f.id), strconv.Itoa(sc.max), cqBool(sc.f.avail), cqBool(sc.f.bytejoin), initCoq, cqList(steps))
+	if merged {
+		return coq, desc, "av1/obus-merged-at-packet-boundary", true
+	}
 	mode := "payload"
 	if sc.rtp {
 		mode = "rtp-passthrough"
@@ -395,7 +461,7 @@ func vC23Run(g *vC23Gen, sc vC23Scenario) (coq string, desc map[string]any, clas
 	}
 	// the class names the most specific kind of unit in the scenario
 	cl := "plain"
-	for _, k := range []string{"error", "outside-precondition", "big", "fua", "stap", "mixed", "single", "boundary", "small"} {
+	for _, k := range []string{"directed", "error", "outside-precondition", "big", "fua", "stap", "mixed", "single", "boundary", "small"} {
 		if classes[k] {
 			cl = k
 			break
@@ -411,30 +477,62 @@ func TestVerifC23(t *testing.T) {
 	defer out.Close()
 	n := vN()
 	fmts := vC23Formats()
+	for _, sc := range vC23Directed(g, fmts) {
+		vC23Prefix = nil
+		vC23Big = false
+		coq, desc, class, nt := vC23Run(g, sc)
+		out.Case(coq, desc, class, nt)
+	}
 	for i := 0; i < n; i++ {
 		var f *vC23Fmt
-		// half of the cases on the modelled packetizer, the rest round-robin over every format
-		if i%2 == 0 {
+		// 40% of the cases on the modelled packetizer, the rest round-robin over every other format
+		if i%5 < 2 {
 			f = fmts[0]
 		} else {
-			f = fmts[(i/2)%len(fmts)]
+			vC23Other++
+			f = fmts[1+vC23Other%(len(fmts)-1)]
 		}
+		vC23Big = i%400 == 10 || i%400 == 113 // a 64 KiB payload as last unit, with a realistic maximum (H.264, then another format)
 		sc := vC23Scenario{f: f, max: g.max(), nUnits: 1 + g.r.Intn(4)}
-		if i%200 == 1 || i%200 == 100 {
-			sc.max = 1460 // the 64 KiB payload class runs with a realistic maximum
+		if sc.max < f.minMax {
+			sc.max += f.minMax
 		}
-		if g.r.Chance(2, 5) {
+		if sc.max > 300 {
+			sc.nUnits = 1 + g.r.Intn(2) // keeps the cases files small
+		}
+		if vC23Big {
+			sc.max = vPick(g.r, []int{1460, 1450, 1200})
+			sc.nUnits = 1
+		}
+		if f.id == 17 || (!vC23Big && g.r.Chance(2, 5)) {
 			sc.rtp = true
 			sc.nUnits = 2 + g.r.Intn(3)
+			if sc.max > 300 {
+				sc.nUnits = 2
+			}
 			sc.srcMax = vPick(g.r, []int{sc.max, sc.max + 1, sc.max + 2, 2 * sc.max, 1460, sc.max + 1 + g.r.Intn(64)})
 			if sc.srcMax < sc.max {
 				sc.srcMax = sc.max
 			}
 		}
-		vC23Big = i%200 == 1 || i%200 == 100
+		vC23Prefix = nil
 		coq, desc, class, nt := vC23Run(g, sc)
+		if vC23Prefix != nil {
+			out.Case(vC23Prefix.coq, vC23Prefix.desc, vC23Prefix.class, vC23Prefix.nt)
+		}
 		out.Case(coq, desc, class, nt)
 	}
 }
+
+var vC23Other int
+
+type vC23Case struct {
+	coq   string
+	desc  map[string]any
+	class string
+	nt    bool
+}
+
+var vC23Prefix *vC23Case
 
 var vC23Big bool
